@@ -7,14 +7,25 @@
 (* each instance are those of the same program run alone.                  *)
 (* SharedSyntax = TRUE gives the model of the implementation as found (one *)
 (* syntax table per thread): TLC must reject it.                           *)
+(* Each instance has its own program directory; the library (conf) exists  *)
+(* in both with different contents, (onlya) only in A's.  SharedFiles =    *)
+(* TRUE is a model with one per-thread cache of library files keyed by the *)
+(* library name: TLC must reject it as well.                               *)
 (***************************************************************************)
 EXTENDS Machine, Programs, Json, SequencesExt
 
-CONSTANTS MaxLen, SharedSyntax
+CONSTANTS MaxLen, SharedSyntax, SharedFiles, Family
 
 DefSyntax(kw, k) == [t |-> "defsyntax", kw |-> kw, k |-> k]
 MacroUse(kw, arg) == [t |-> "macrouse", kw |-> kw, arg |-> arg]
+ImportFile(lib) == [t |-> "importfile", lib |-> lib]
+\* what the library files of an instance's program directory export: library -> value of its one export
+Files(who) == IF who = 1 THEN ("conf" :> 100) @@ ("onlya" :> 1) ELSE ("conf" :> 200)
+ExportOf(lib) == IF lib = "conf" THEN "answer" ELSE "only-a"
 Alphabet(who) ==     \* the same names in both programs; what is defined differs by instance
+  IF Family = "files"
+  THEN {ImportFile("conf"), ImportFile("onlya"), Var("answer"), Define("answer", Num(IF who = 1 THEN 1 ELSE 2)), Var("only-a")}
+  ELSE
   {Define("x", Num(IF who = 1 THEN 1 ELSE 2)),
    Set("x", Call("+", <<Var("x"), Num(10)>>)),
    Var("x"),
@@ -23,42 +34,55 @@ Alphabet(who) ==     \* the same names in both programs; what is defined differs
    DefSyntax("cond", IF who = 1 THEN "cond-a" ELSE "cond-b"),
    MacroUse("cond", Num(7)),
    Call("car", <<Num(5)>>)}
-ProgramsOf(who) == UNION {[1..n -> Alphabet(who)] : n \in 1..MaxLen}
+\* Ruschm accepts import declarations only before the first other form of a program
+ImportsFirst(p) == \A i \in DOMAIN p : p[i].t = "importfile" => \A j \in 1..(i - 1) : p[j].t = "importfile"
+ProgramsOf(who) == {p \in UNION {[1..n -> Alphabet(who)] : n \in 1..MaxLen} : ImportsFirst(p)}
 
 RECURSIVE RunSteps(_, _)
 RunSteps(s, fuel) == IF s.status = "done" \/ fuel = 0 THEN s ELSE RunSteps(Step(s), fuel - 1)
-RunForm(s, form) == RunSteps(Submit(s, form), 300)
-RECURSIVE Alone(_, _, _, _)
-Alone(s, prog, i, acc) == IF i > Len(prog) THEN acc
-                          ELSE LET s2 == RunForm(s, prog[i]) IN Alone(s2, prog, i + 1, Append(acc, s2.result))
+\* files: the library files this evaluation sees (its own directory's, or - SharedFiles - whatever a cache says)
+RunForm(s, form, files) ==
+  IF form.t = "importfile"
+  THEN IF form.lib \in DOMAIN files THEN RunSteps(Submit(s, Define(ExportOf(form.lib), Num(files[form.lib]))), 300)
+       ELSE Fail([s EXCEPT !.out = <<>>], "NotFound")
+  ELSE RunSteps(Submit(s, form), 300)
+RECURSIVE Alone(_, _, _, _, _)
+Alone(s, prog, i, acc, who) == IF i > Len(prog) THEN acc
+                               ELSE LET s2 == RunForm(s, prog[i], Files(who)) IN Alone(s2, prog, i + 1, Append(acc, s2.result), who)
 
-VARIABLES pa, pb, ia, ib, ma, mb, ra, rb, sched
-vars == <<pa, pb, ia, ib, ma, mb, ra, rb, sched>>
+VARIABLES pa, pb, ia, ib, ma, mb, ra, rb, sched, cache
+vars == <<pa, pb, ia, ib, ma, mb, ra, rb, sched, cache>>
 Init == /\ pa \in ProgramsOf(1) /\ pb \in ProgramsOf(2)
-        /\ ia = 0 /\ ib = 0 /\ ma = InitState /\ mb = InitState /\ ra = <<>> /\ rb = <<>> /\ sched = <<>>
+        /\ ia = 0 /\ ib = 0 /\ ma = InitState /\ mb = InitState /\ ra = <<>> /\ rb = <<>> /\ sched = <<>> /\ cache = <<>>
 
+\* the files an instance sees: with SharedFiles a library some instance has loaded before is served from the cache
+Seen(who) == IF SharedFiles THEN cache @@ Files(who) ELSE Files(who)
+CacheAfter(who, form) == IF SharedFiles /\ form.t = "importfile" /\ form.lib \in DOMAIN Seen(who)
+                         THEN (form.lib :> Seen(who)[form.lib]) @@ cache ELSE cache
 \* instance A evaluates its next form.  With SharedSyntax the syntax table is one object: A starts from the
 \* table B last left, and its own changes are visible to B afterwards.
 StepA == /\ ia < Len(pa)
          /\ LET start == IF SharedSyntax THEN [ma EXCEPT !.syn = mb.syn] ELSE ma
-                m2 == RunForm(start, pa[ia + 1])
+                m2 == RunForm(start, pa[ia + 1], Seen(1))
             IN /\ ma' = m2 /\ ra' = Append(ra, m2.result)
                /\ mb' = IF SharedSyntax THEN [mb EXCEPT !.syn = m2.syn] ELSE mb
+         /\ cache' = CacheAfter(1, pa[ia + 1])
          /\ ia' = ia + 1 /\ sched' = Append(sched, 1) /\ UNCHANGED <<pa, pb, ib, rb>>
 StepB == /\ ib < Len(pb)
          /\ LET start == IF SharedSyntax THEN [mb EXCEPT !.syn = ma.syn] ELSE mb
-                m2 == RunForm(start, pb[ib + 1])
+                m2 == RunForm(start, pb[ib + 1], Seen(2))
             IN /\ mb' = m2 /\ rb' = Append(rb, m2.result)
                /\ ma' = IF SharedSyntax THEN [ma EXCEPT !.syn = m2.syn] ELSE ma
+         /\ cache' = CacheAfter(2, pb[ib + 1])
          /\ ib' = ib + 1 /\ sched' = Append(sched, 2) /\ UNCHANGED <<pa, pb, ia, ra>>
 Next == StepA \/ StepB
 Spec == Init /\ [][Next]_vars
 
 Finished == ia = Len(pa) /\ ib = Len(pb)
 \* non-interference: whatever the interleaving, each instance behaves as if it were alone
-Isolated == Finished => (ra = Alone(InitState, pa, 1, <<>>) /\ rb = Alone(InitState, pb, 1, <<>>))
+Isolated == Finished => (ra = Alone(InitState, pa, 1, <<>>, 1) /\ rb = Alone(InitState, pb, 1, <<>>, 2))
 \* (at every point the results so far are a prefix of the results alone)
-IsolatedPrefix == /\ ra = SubSeq(Alone(InitState, pa, 1, <<>>), 1, ia)
-                  /\ rb = SubSeq(Alone(InitState, pb, 1, <<>>), 1, ib)
+IsolatedPrefix == /\ ra = SubSeq(Alone(InitState, pa, 1, <<>>, 1), 1, ia)
+                  /\ rb = SubSeq(Alone(InitState, pb, 1, <<>>, 2), 1, ib)
 Emit == Finished => PrintT(<<"VEC", ToJson([pa |-> pa, pb |-> pb, sched |-> sched, ra |-> ra, rb |-> rb])>>)
 =============================================================================
